@@ -355,3 +355,174 @@ Proof.
   intros Hok H. apply (life_history_wf unicast tbl).
   exact (proj1 (product_run_is_life_history unicast tbl S mf dbg ls yf ah Hok H)).
 Qed.
+
+(* ------------------------------------------------------------ C10 for systems of unit-life machines *)
+Lemma terminal_rejects c t p e hs :
+  phase_terminal p = true -> event_test e = Some t -> Model.Unit.ustep c t p e hs = None.
+Proof.
+  intros Hp He. destruct e; cbn [event_test] in He; try discriminate;
+    destruct p; try discriminate Hp; cbn [Model.Unit.ustep]; try reflexivity;
+    destruct (memb t (c_sel c)); try reflexivity; destruct (memb t (c_unsel c)); reflexivity.
+Qed.
+
+(* a unit trace in which a start request is not accepted ends there, refused *)
+Lemma refused_start_ends c t : forall F p pf,
+  Forall (fun x => event_test (fst x) = Some t) F -> ufold c t p F = Some pf ->
+  (exists e hs, In (e, hs) F /\ is_start_request e = true /\ hs <> HAccepted) ->
+  pf = PRefusedStart \/ exists k, pf = PRefusedRetry k.
+Proof.
+  induction F as [|[e hs] F IH]; intros p pf Hall Hf (e0 & hs0 & Hin & Hst & Hna); [destruct Hin|].
+  inversion Hall as [|? ? He Hr]; subst. cbn [fst] in He.
+  cbn [ufold] in Hf. rewrite He, N.eqb_refl in Hf.
+  destruct (Model.Unit.ustep c t p e hs) as [p1|] eqn:Eu; [|discriminate].
+  destruct Hin as [E|Hin].
+  - injection E as -> ->.
+    assert (Hterm : phase_terminal p1 = true /\ (p1 = PRefusedStart \/ exists k, p1 = PRefusedRetry k)).
+    { destruct e0; cbn [is_start_request] in Hst; try discriminate; cbn [event_test] in He;
+        try discriminate; cbn [Model.Unit.ustep] in Eu.
+      - destruct (memb t (c_sel c)); [|discriminate].
+        destruct p; try (destruct hs0; discriminate).
+        destruct hs0; try discriminate; [exfalso; apply Hna; reflexivity|].
+        injection Eu as <-. split; [reflexivity|left; reflexivity].
+      - destruct p as [| |k| | | |]; try discriminate.
+        destruct ((no =? k + 1) && (total =? c_total c t)); [|discriminate].
+        destruct hs0; try discriminate; [exfalso; apply Hna; reflexivity|].
+        injection Eu as <-. split; [reflexivity|right; exists k; reflexivity]. }
+    destruct Hterm as [Ht Hp1].
+    destruct F as [|[e2 hs2] F].
+    + cbn [ufold] in Hf. injection Hf as <-. exact Hp1.
+    + exfalso. inversion Hr as [|? ? He2 _]; subst. cbn [fst] in He2.
+      cbn [ufold] in Hf. rewrite He2, N.eqb_refl, (terminal_rejects c t p1 e2 hs2 Ht He2) in Hf.
+      discriminate.
+  - apply (IH p1 pf Hr Hf). exists e0, hs0. repeat split; assumption.
+Qed.
+
+Lemma phase_refused_inv s :
+  phase_of_lstate s = PRefusedStart \/ (exists k, phase_of_lstate s = PRefusedRetry k) ->
+  l_ph s = LRefusedP.
+Proof.
+  unfold phase_of_lstate. destruct (l_ph s); try reflexivity; intros [H|[k H]]; discriminate.
+Qed.
+
+(* After cancellation has been announced, a unit-life machine that asks to start anything (its
+   first attempt or a retry) is refused and returns without a further attempt and without
+   Finished: its life ends in LRefusedP. *)
+Theorem unit_refused_after_announcement unicast tbl S mf dbg h tr1 x tr2 t es y :
+  let c := cfg_of_lsystem S in
+  let ah := annotate (Live (init_for c mf dbg)) h in
+  trace (Live (init_for c mf dbg)) h = tr1 ++ x :: tr2 ->
+  existsb is_ann (step_events x) = true ->
+  memb t (ls_sel S) = true ->
+  lsys_run unicast tbl (ls_cfg S t) (lsys0 (ls_cfg S t)) es = LOk y ->
+  filter (of_test t) ah = project_life tbl (ls_fd S t) t (ls_cfg S t) es ->
+  (exists z, In z tr2 /\ is_start_request (step_input z) = true /\
+             event_test (step_input z) = Some t) ->
+  l_ph (y_s y) = LRefusedP.
+Proof.
+  cbv zeta. intros Htr Hann Hsel Hrun Hproj (z & Hz & Hst & Hzt).
+  set (c := cfg_of_lsystem S) in *.
+  set (an := fun x0 : devent * list revent * response => (step_input x0, r_hs (step_resp x0))) in *.
+  assert (Hah : annotate (Live (init_for c mf dbg)) h = map an tr1 ++ an x :: map an tr2).
+  { unfold annotate. fold an. rewrite Htr, map_app. reflexivity. }
+  pose proof (life_refines_protocol_phase unicast tbl (ls_fd S t) t (ls_cfg S t) c es y Hsel eq_refl Hrun)
+    as Hph.
+  rewrite <- Hproj, Hah in Hph.
+  change (map an tr1 ++ an x :: map an tr2) with (map an tr1 ++ [an x] ++ map an tr2) in Hph.
+  rewrite app_assoc, filter_app, ufold_app in Hph.
+  destruct (ufold c t PIdle (filter (of_test t) (map an tr1 ++ [an x]))) as [p1|]; [|discriminate].
+  apply phase_refused_inv.
+  apply (refused_start_ends c t _ p1 _ (filter_of_test_events t _) Hph).
+  exists (step_input z), (r_hs (step_resp z)). split; [|split; [exact Hst|]].
+  - apply filter_In. split.
+    + apply in_map_iff. exists z. split; [reflexivity|exact Hz].
+    + unfold of_test. cbn [fst an]. rewrite Hzt. apply N.eqb_refl.
+  - pose proof (proj2 (no_new_units (Live (init_for c mf dbg)) h
+                         (reachable_sig_inv (N.of_nat (length (c_sel c))) mf dbg [])) tr1 x tr2 Htr Hann)
+      as Hall.
+    rewrite Forall_forall in Hall. exact (proj1 (Hall z Hz)).
+Qed.
+
+(* With the dispatcher's repeat of the cancel request (F10 repair) no unit of a product run has
+   spent any time in a retry delay after a cancel request had been delivered to it. *)
+Theorem product_no_delay_after_cancel tbl S mf dbg ls yf ah :
+  cfg_ok (cfg_of_lsystem S) = true ->
+  yrun true tbl S (ystate0 S mf dbg) ls = Some (yf, ah) ->
+  forall t, In t (ls_sel S) -> y_dc (ys_u yf t) = 0.
+Proof.
+  intros Hok H t Hin.
+  destruct (product_run_is_life_history true tbl S mf dbg ls yf ah Hok H) as (_ & _ & _ & Hu).
+  exact (no_delay_after_cancel tbl (ls_cfg S t) (unit_events t ls) _ _ (Hu t Hin) eq_refl).
+Qed.
+
+(* ------------------------------------------------------------ the dispatcher-family theorems for
+   systems of unit-life machines: [wf_history] replaced by [life_history] *)
+Section ForUnitMachines.
+  Variable unicast : bool.
+  Variable tbl : ptable.
+  Variable S : lsystem.
+  Variable mf : option N.
+  Variable dbg : bool.
+  Variable h : list devent.
+  Hypothesis Hlife : life_history unicast tbl S mf dbg h.
+  Hypothesis Hsig : (shutdown_count h <= 2)%nat.
+  Let c := cfg_of_lsystem S.
+
+  Lemma life_exit_is_spec p : run_exit c mf dbg h p = Some (spec_exit c h p).
+  Proof. apply run_exit_spec; [exact (life_history_wf unicast tbl S mf dbg h Hlife)|exact Hsig]. Qed.
+
+  Lemma life_exit_zero_iff p :
+    run_exit c mf dbg h p = Some 0%Z <->
+    (forall r, In r (script_results h) -> is_success r = true) /\
+    (forall t, In t (c_sel c) -> exists a, final_of h t = Some a /\ is_success (a_res a) = true) /\
+    (c_sel c <> [] \/ p = Some NtPass \/ p = Some NtWarn).
+  Proof. apply exit_zero_iff; [exact (life_history_wf unicast tbl S mf dbg h Hlife)|exact Hsig]. Qed.
+
+  Lemma life_once :
+    let o := out (Live (init_for c mf dbg)) h in
+    forall t,
+      (count_if (is_started_of t) o <= 1)%nat /\
+      (count_if (is_finished_of t) o <= 1)%nat /\
+      (count_if (is_skipped_of t) o <= 1)%nat /\
+      (forall pre e post, o = pre ++ e :: post -> is_finished_of t e = true ->
+         exists x, In x pre /\ is_started_of t x = true) /\
+      (forall e, In e o -> is_skipped_of t e = true -> In t (c_unsel c) /\ ~ In t (c_sel c)) /\
+      (forall e, In e o -> event_tid e = Some t -> is_skipped_of t e = false -> In t (c_sel c)).
+  Proof. apply once; [exact (life_history_wf unicast tbl S mf dbg h Hlife)|exact Hsig]. Qed.
+
+  Lemma life_attempts :
+    let o := out (Live (init_for c mf dbg)) h in
+    forall t,
+      (exists o', ocheck (c_total c t) t ONone o = Some o') /\
+      (forall pre sts s r cs post, o = pre ++ ETestFinished t sts s r cs :: post ->
+         numbered_from 1 (st_all sts) = true /\ st_len sts <= c_total c t) /\
+      (forall pre e post k, o = pre ++ e :: post -> is_retry_of t (k + 1) e = true ->
+         exists x, In x pre /\ is_failed_retry_of t k x = true).
+  Proof. apply attempts; [exact (life_history_wf unicast tbl S mf dbg h Hlife)|exact Hsig]. Qed.
+
+  Lemma life_never_panics : exists d, final_state (Live (init_for c mf dbg)) h = Live d.
+  Proof. apply never_panics_on_wf; [exact (life_history_wf unicast tbl S mf dbg h Hlife)|exact Hsig]. Qed.
+End ForUnitMachines.
+
+(* for the operational product: no hypothesis about the history is left but the configuration's
+   test lists and the signal count *)
+Lemma product_exit_is_spec unicast tbl S mf dbg ls yf ah p :
+  cfg_ok (cfg_of_lsystem S) = true ->
+  yrun unicast tbl S (ystate0 S mf dbg) ls = Some (yf, ah) ->
+  (shutdown_count (map fst ah) <= 2)%nat ->
+  run_exit (cfg_of_lsystem S) mf dbg (map fst ah) p
+  = Some (spec_exit (cfg_of_lsystem S) (map fst ah) p).
+Proof.
+  intros Hok H Hs. apply (life_exit_is_spec unicast tbl); [|exact Hs].
+  exact (proj1 (product_run_is_life_history unicast tbl S mf dbg ls yf ah Hok H)).
+Qed.
+
+Lemma product_never_panics unicast tbl S mf dbg ls yf ah :
+  cfg_ok (cfg_of_lsystem S) = true ->
+  yrun unicast tbl S (ystate0 S mf dbg) ls = Some (yf, ah) ->
+  (shutdown_count (map fst ah) <= 2)%nat ->
+  exists d, ys_d yf = Live d.
+Proof.
+  intros Hok H Hs.
+  destruct (product_run_is_life_history unicast tbl S mf dbg ls yf ah Hok H) as (Hl & _ & Hd & _).
+  destruct (life_never_panics unicast tbl S mf dbg _ Hl Hs) as [d E]. exists d. rewrite Hd. exact E.
+Qed.
